@@ -44,6 +44,10 @@ CHECKS["C06"] = dict(engine="sig", level=("model_checking", "Graph.tla defines t
     note="SHA-1 collisions ignored; alias import through the manifest reader is represented by rename-all; three open known findings (input mode / same-kind input order / retarget inside ancestors are not hashed)",
     technique="TLA+ term-algebra spec of the identifier (Graph.tla Sig) checked by TLC + trace validation of real module hashes under mutation")
 
+CHECKS["C15"] = dict(engine="filter", level=("model_checking", "TLC proves on the whole bounded space (all expressions of depth <= 2 over 3 keys x all assignments to 2 (3) blocks) that evaluating Filter.tla's expression on the pre-computed index selects exactly the blocks whose own keys satisfy it; the real parser, RoaringBitmapsApply, KeysApply, BlockIndex.Skip and SkipFromKeys are run on random expressions and assignments (several expressions over one shared index) and TraceFilter.tla judges every answer, and the index content afterwards, on the AST the real parser produced.", "6/C15"),
+    note="parser precedence is not judged; NOT is rejected by the parser and therefore outside the accepted expressions; end-to-end index presence/absence is covered by the system driver when registered",
+    technique="TLA+ spec (Filter.tla/MCFilter.tla) model-checked by TLC + trace validation (TraceFilter.tla) of the real sqe evaluators")
+
 NOT_YET = "machinery for this property is not built yet in this revision (work in progress; see DESIGN.md section 9 for the plan)"
 
 
